@@ -30,6 +30,7 @@ type HookDef struct {
 type ChartDef struct {
 	Res   map[string]ResDef  `json:"res"`
 	Hooks map[string]HookDef `json:"hooks"`
+	CRDs  []string           `json:"crds"`
 }
 
 type ChartLib map[string]ChartDef
@@ -141,6 +142,10 @@ func BuildChart(name string, d ChartDef) (*chart.Chart, error) {
 	sort.Strings(hids)
 	for _, id := range hids {
 		files = append(files, &loader.BufferedFile{Name: "templates/" + id + ".yaml", Data: []byte(hookTemplate(id, d.Hooks[id]))})
+	}
+	for _, id := range d.CRDs {
+		crd := fmt.Sprintf("apiVersion: apiextensions.k8s.io/v1\nkind: CustomResourceDefinition\nmetadata:\n  name: %s\nspec:\n  group: verif.example\n  names:\n    kind: K%s\n    plural: %ss\n  scope: Namespaced\n", id, id, id)
+		files = append(files, &loader.BufferedFile{Name: "crds/" + id + ".yaml", Data: []byte(crd)})
 	}
 	return loader.LoadFiles(files)
 }
